@@ -77,7 +77,11 @@ var c36ShapePairs = [][2]int{{1, 1}, {2, 1}, {0, 2}, {7, 1}, {4, 2}, {3, 2}, {3,
 
 // cumulative vectors (finite buckets..., total): every non-decreasing tuple over {0,1,3}, then
 // one strictly increasing and one non-integral vector.
-func c36Vectors(nb int) [][]float64 {
+var c36VecCache = [4][][]float64{c36MkVectors(0), c36MkVectors(1), c36MkVectors(2), c36MkVectors(3)}
+
+func c36Vectors(nb int) [][]float64 { return c36VecCache[nb] }
+
+func c36MkVectors(nb int) [][]float64 {
 	dom := []float64{0, 1, 3}
 	var out [][]float64
 	var rec func(cur []float64, from int)
@@ -381,7 +385,8 @@ func c36Contiguous(lines []c36Line, perm []int) bool {
 }
 
 // c36Payload builds the exposition and tells whether each label set's lines are contiguous.
-func c36Payload(c *c36Case, sets []c36Set) (payload []byte, contiguous bool) {
+func c36Payload(c *c36Case, x *c36Ctx) (payload []byte, contiguous bool) {
+	sets := x.sets
 	var buf bytes.Buffer
 	f := c36Format(c.Fmt)
 	if c.Fmt == c36Proto || c.Fmt == c36ProtoWrap {
@@ -390,23 +395,13 @@ func c36Payload(c *c36Case, sets []c36Set) (payload []byte, contiguous bool) {
 		if len(c.Perm) > 0 && c.Perm[0] == 1 && len(sets) == 2 {
 			order = []int{1, 0}
 		}
-		bperm := make([][]int, len(sets))
-		for si, s := range sets {
-			n := len(s.Bounds)
-			if s.Inf {
-				n++
-			}
-			if 1+si < len(c.Perm) {
-				bperm[si] = c36NthPerm(n, c.Perm[1+si])
-			}
-		}
-		buf.Write(c36Encode(f, c36HistFamily(sets, order, bperm), false))
+		buf.Write(c36Encode(f, c36HistFamily(sets, order, nil), false))
 		if t := c36TrailerFamily(c.Trailer); t != nil {
 			buf.Write(c36Encode(f, t, false))
 		}
 		return buf.Bytes(), true
 	}
-	enc := c36GetEnc(c, sets)
+	enc := x.enc
 	header, lines, created := enc.header, enc.lines, enc.created
 	buf.Write(enc.prefix)
 	for _, h := range header {
@@ -479,32 +474,6 @@ func c36GetEnc(c *c36Case, sets []c36Set) *c36Enc {
 	e.trailer = buf.Bytes()
 	c36EncCache.Store(key, e)
 	return e
-}
-
-// c36NthPerm returns the k-th permutation (vx.Perms order) of 0..n-1.
-func c36NthPerm(n, k int) []int {
-	var out []int
-	i := 0
-	vx.Perms(n, func(p []int) bool {
-		if i == k {
-			out = append([]int{}, p...)
-			return false
-		}
-		i++
-		return true
-	})
-	if out == nil {
-		panic("c36: permutation index out of range")
-	}
-	return out
-}
-
-func c36Fact(n int) int {
-	f := 1
-	for i := 2; i <= n; i++ {
-		f *= i
-	}
-	return f
 }
 
 // ---------------------------------------------------------------------------------------------
@@ -581,7 +550,7 @@ func c36Want(c *c36Case, sets []c36Set) []c36NH {
 // c36Norm turns an emitted custom-bucket histogram entry into the comparable form (absolute
 // bucket counts per custom bound, whatever the span layout).
 func c36Norm(e tpxEntry) (c36NH, error) {
-	n := c36NH{Labels: e.Labels, HasTS: e.HasTS, TS: e.TS, ST: e.ST}
+	n := c36NH{Labels: e.LS.String(), HasTS: e.HasTS, TS: e.TS, ST: e.ST}
 	var fh *histogram.FloatHistogram
 	switch {
 	case e.H != nil && e.FH != nil:
@@ -641,7 +610,7 @@ func c36IsNHCB(e tpxEntry) bool {
 }
 
 // c36ClassicOf reports the index of the label set whose classic series e is (-1: none).
-func c36ClassicOf(e tpxEntry, sets []c36Set) int {
+func c36ClassicOf(e *tpxEntry, x *c36Ctx) int {
 	if e.Kind != "series" {
 		return -1
 	}
@@ -650,9 +619,19 @@ func c36ClassicOf(e tpxEntry, sets []c36Set) int {
 	default:
 		return -1
 	}
-	rest := labels.NewBuilder(e.LS).Del("__name__", "le", "__type__", "__unit__").Labels().String()
-	for i, s := range sets {
-		if labels.FromStrings(s.Lbl...).String() == rest {
+	for i, want := range x.setLS {
+		n, ok := 0, true
+		e.LS.Range(func(l labels.Label) {
+			switch l.Name {
+			case "__name__", "le", "__type__", "__unit__":
+				return
+			}
+			if want.Get(l.Name) != l.Value {
+				ok = false
+			}
+			n++
+		})
+		if ok && n == want.Len() {
 			return i
 		}
 	}
@@ -681,91 +660,143 @@ func c36Parser(c *c36Case, payload []byte, convert bool) (Parser, error) {
 	})
 }
 
+type c36Viol struct {
+	Sig string
+	Msg func() string
+}
+
+func c36V(sig string, msg func() string) c36Viol { return c36Viol{sig, msg} }
+
+type c36Scratch struct{ base, conv, rest, exp []tpxEntry }
+
+var c36Pool = sync.Pool{New: func() any { return &c36Scratch{} }}
+
 type c36Result struct {
-	Sig, Msg string
-	Outcome  string
+	Viols   []c36Viol
+	Outcome string // the emitted custom-bucket histograms (canonical keys)
+}
+
+// c36Ctx: everything about a case that does not depend on the line order.
+type c36Ctx struct {
+	sets   []c36Set
+	want   []string // sorted keys of the expected custom-bucket histograms
+	wantL  []c36NH
+	wantST bool
+	enc    *c36Enc // text/OpenMetrics only
+	setLS  []labels.Labels
+}
+
+func c36NewCtx(c *c36Case) *c36Ctx {
+	x := &c36Ctx{sets: c.sets()}
+	for _, st := range x.sets {
+		x.setLS = append(x.setLS, labels.FromStrings(st.Lbl...))
+	}
+	x.wantST = c.SkipST || c.Fmt == c36Proto || c.Fmt == c36ProtoWrap
+	x.wantL = c36Want(c, x.sets)
+	for _, w := range x.wantL {
+		x.want = append(x.want, w.key(x.wantST))
+	}
+	sort.Strings(x.want)
+	if c.Fmt == c36Text || c.Fmt == c36OM {
+		x.enc = c36GetEnc(c, x.sets)
+	}
+	return x
 }
 
 // c36Compare is the oracle proper (also used by the self-test): base = entries without
 // conversion, conv = entries with conversion.
-func c36Compare(c *c36Case, sets []c36Set, base, conv []tpxEntry, wantST bool) (sig, msg string) {
-	var rest []tpxEntry
+func c36Compare(c *c36Case, x *c36Ctx, base, conv []tpxEntry, contiguous bool) (viols []c36Viol, outcome string) {
+	return c36CompareS(c, x, base, conv, contiguous, &c36Scratch{})
+}
+
+func c36CompareS(c *c36Case, x *c36Ctx, base, conv []tpxEntry, contiguous bool, sc *c36Scratch) (viols []c36Viol, outcome string) {
+	sets := x.sets
+	rest := sc.rest[:0]
+	defer func() { sc.rest = rest }()
 	var got []string
+	var gl []c36NH
 	for _, e := range conv {
 		if c36IsNHCB(e) {
 			n, err := c36Norm(e)
 			if err != nil {
-				return "nhcb-malformed", fmt.Sprintf("%v: %s", err, e)
+				viols = append(viols, c36V("nhcb-malformed", func() string { return fmt.Sprintf("%v: %s", err, e) }))
+				continue
 			}
-			got = append(got, n.key(wantST))
+			got = append(got, n.key(x.wantST))
+			gl = append(gl, n)
 			continue
 		}
 		rest = append(rest, e)
 	}
+	outcome = strings.Join(got, "|")
 	// (1) everything else
-	var exp []tpxEntry
+	exp := sc.exp[:0]
+	defer func() { sc.exp = exp }()
 	for _, e := range base {
 		if !c.Keep {
-			if si := c36ClassicOf(e, sets); si >= 0 && (!sets[si].Native || c.IgnoreNative) {
+			if si := c36ClassicOf(&e, x); si >= 0 && (!sets[si].Native || c.IgnoreNative) {
 				continue
 			}
 		}
 		exp = append(exp, e)
 	}
-	a, b := tpxStrings(rest), tpxStrings(exp)
-	if strings.Join(a, "\n") != strings.Join(b, "\n") {
+	if !tpxSameList(rest, exp) {
 		what := "passthrough-differs"
 		if c.Keep {
 			what = "keep-classic-differs"
+			// narrower class: the only difference is that classic series lost their exemplars
+			stripped := append([]tpxEntry{}, exp...)
+			for i := range stripped {
+				if c36ClassicOf(&stripped[i], x) >= 0 {
+					stripped[i].Ex = nil
+				}
+			}
+			if tpxSameList(rest, stripped) {
+				what = "keep-classic-exemplars-lost"
+			}
 		}
-		return what, fmt.Sprintf("entries other than custom-bucket histograms with conversion:\n  %s\nexpected (parse without conversion%s):\n  %s",
-			strings.Join(a, "\n  "), map[bool]string{true: "", false: " minus classic series of converted sets"}[c.Keep], strings.Join(b, "\n  "))
+		m := ""
+		if c36SigNew(what) {
+			m = fmt.Sprintf("entries other than custom-bucket histograms with conversion:\n  %s\nexpected (parse without conversion%s):\n  %s",
+			strings.Join(tpxStrings(rest), "\n  "), map[bool]string{true: "", false: " minus classic series of converted sets"}[c.Keep], strings.Join(tpxStrings(exp), "\n  "))
+		}
+		viols = append(viols, c36V(what, func() string { return m }))
 	}
 	// (2) the custom-bucket histograms
-	var want []string
-	wl := c36Want(c, sets)
-	for _, w := range wl {
-		want = append(want, w.key(wantST))
-	}
-	sg, sw := append([]string{}, got...), append([]string{}, want...)
+	sg := append([]string{}, got...)
 	sort.Strings(sg)
-	sort.Strings(sw)
-	if strings.Join(sg, "\n") == strings.Join(sw, "\n") {
-		return "", ""
+	if strings.Join(sg, "\n") == strings.Join(x.want, "\n") {
+		return viols, outcome
 	}
-	// classify
-	sig = "nhcb-content-mismatch"
+	sig := "nhcb-content-mismatch"
 	switch {
-	case len(got) > len(want):
+	case !contiguous:
+		// The lines of one label set are separated by lines of the other one: the statement
+		// still demands one histogram per label set. One dedicated signature (see report).
+		sig = "interleaved-label-sets-not-collated"
+	case len(got) > len(x.want):
 		sig = "nhcb-extra-histogram"
-	case len(got) < len(want):
+	case len(got) < len(x.want):
 		sig = "nhcb-missing-histogram"
 	default:
-		// same number: find which field differs, ignoring one field at a time
-		var gl []c36NH
-		for _, e := range conv {
-			if c36IsNHCB(e) {
-				n, _ := c36Norm(e)
-				gl = append(gl, n)
-			}
-		}
+		// same number: find the field that differs by blanking one field at a time
 		try := func(f func(n *c36NH)) bool {
-			var x, y []string
+			var a, b []string
 			for _, n := range gl {
 				f(&n)
-				x = append(x, n.key(wantST))
+				a = append(a, n.key(x.wantST))
 			}
-			for _, n := range wl {
+			for _, n := range x.wantL {
 				f(&n)
-				y = append(y, n.key(wantST))
+				b = append(b, n.key(x.wantST))
 			}
-			sort.Strings(x)
-			sort.Strings(y)
-			return strings.Join(x, "\n") == strings.Join(y, "\n")
+			sort.Strings(a)
+			sort.Strings(b)
+			return strings.Join(a, "\n") == strings.Join(b, "\n")
 		}
 		switch {
 		case try(func(n *c36NH) { n.HasTS, n.TS = false, 0 }):
-			sig = "nhcb-timestamp-mismatch"
+			sig = c36TSSig(c, x, "nhcb-timestamp-mismatch")
 		case try(func(n *c36NH) { n.ST = 0 }):
 			sig = "nhcb-start-timestamp-mismatch"
 		case try(func(n *c36NH) { n.Ex = nil }):
@@ -782,20 +813,33 @@ func c36Compare(c *c36Case, sets []c36Set, base, conv []tpxEntry, wantST bool) (
 			sig = "nhcb-bounds-mismatch"
 		}
 	}
-	return sig, fmt.Sprintf("custom-bucket histograms emitted:\n  %s\nexpected (one per label set, from the model):\n  %s", strings.Join(got, "\n  "), strings.Join(want, "\n  "))
+	viols = append(viols, c36V(sig, func() string {
+		return fmt.Sprintf("custom-bucket histograms emitted:\n  %s\nexpected (one per label set, from the model):\n  %s", strings.Join(got, "\n  "), strings.Join(x.want, "\n  "))
+	}))
+	return viols, outcome
 }
 
-func c36Run(r *vx.Run, c *c36Case) c36Result {
-	sets := c.sets()
-	payload, contiguous := c36Payload(c, sets)
-	wantST := c.SkipST || c.Fmt == c36Proto || c.Fmt == c36ProtoWrap
+// c36Seen: signatures already reported (messages of repeats are not rendered).
+var c36Seen sync.Map
+
+func c36SigNew(sig string) bool { _, ok := c36Seen.Load(sig); return !ok }
+
+func c36Run(c *c36Case, x *c36Ctx) c36Result {
+	if x == nil {
+		x = c36NewCtx(c)
+	}
+	payload, contiguous := c36Payload(c, x)
 	show := func() string {
 		if c.Fmt == c36Proto || c.Fmt == c36ProtoWrap {
 			return fmt.Sprintf("%s payload %x", c36FmtNames[c.Fmt], payload)
 		}
 		return fmt.Sprintf("%s payload:\n%s", c36FmtNames[c.Fmt], payload)
 	}
-	opts := fmt.Sprintf("keep-classic=%v type-and-unit-labels=%v skip-st-series=%v ignore-native=%v", c.Keep, c.TypeUnit, c.SkipST, c.IgnoreNative)
+	cc := *c
+	cc.Perm = append([]int{}, c.Perm...)
+	opts := fmt.Sprintf("keep-classic=%v type-and-unit-labels=%v skip-st-series=%v ignore-native=%v", cc.Keep, cc.TypeUnit, cc.SkipST, cc.IgnoreNative)
+	sc := c36Pool.Get().(*c36Scratch)
+	defer c36Pool.Put(sc)
 	var base, conv []tpxEntry
 	var berr, cerr error
 	pnc, stack := vx.Guard(func() {
@@ -804,58 +848,75 @@ func c36Run(r *vx.Run, c *c36Case) c36Result {
 			berr = fmt.Errorf("no parser: %v", err)
 			return
 		}
-		base, berr = tpxCollect(p, wantST, 1000)
+		base, berr = tpxCollectInto(p, x.wantST, 1000, sc.base)
+		sc.base = base
 		p, err = c36Parser(c, payload, true)
 		if err != nil || p == nil {
 			cerr = fmt.Errorf("no parser: %v", err)
 			return
 		}
-		conv, cerr = tpxCollect(p, wantST, 1000)
+		conv, cerr = tpxCollectInto(p, x.wantST, 1000, sc.conv)
+		sc.conv = conv
 	})
-	pre := ""
-	if !contiguous {
-		// The lines of one label set are separated by lines of the other one. Reported under
-		// its own signature family: see the report (NHCBParser only collates adjacent lines).
-		pre = "interleaved-"
+	one := func(sig, msg string) c36Result {
+		return c36Result{Viols: []c36Viol{c36V(sig, func() string { return msg })}}
 	}
 	if pnc != nil {
-		return c36Result{Sig: pre + "nhcb-parse-panic", Msg: fmt.Sprintf("panic %v (%s)\n%s\n%s", pnc, opts, show(), stack)}
+		return one("nhcb-parse-panic", fmt.Sprintf("panic %v (%s)\n%s\n%s", pnc, opts, show(), stack))
 	}
 	if berr != nil {
 		// the generated payload is valid by construction: the harness (or the base parser) is broken
-		return c36Result{Sig: pre + "valid-payload-rejected", Msg: fmt.Sprintf("parse without conversion failed: %v (%s)\n%s", berr, opts, show())}
+		return one("valid-payload-rejected", fmt.Sprintf("parse without conversion failed: %v (%s)\n%s", berr, opts, show()))
 	}
 	if cerr != nil {
-		return c36Result{Sig: pre + "nhcb-parse-error", Msg: fmt.Sprintf("parse with conversion failed: %v (%s)\n%s", cerr, opts, show())}
+		return one("nhcb-parse-error", fmt.Sprintf("parse with conversion failed: %v (%s)\n%s", cerr, opts, show()))
 	}
-	sig, msg := c36Compare(c, sets, base, conv, wantST)
-	out := strings.Join(tpxStrings(conv), "|")
-	if sig != "" {
-		if sig == "nhcb-timestamp-mismatch" && contiguous {
-			sig = c36TSSig(c, sets, sig)
-		}
-		return c36Result{Sig: pre + sig, Msg: fmt.Sprintf("%s (%s)\n%s", msg, opts, show()), Outcome: out}
+	viols, out := c36CompareS(c, x, base, conv, contiguous, sc)
+	for i := range viols {
+		m := viols[i].Msg
+		viols[i].Msg = func() string { return fmt.Sprintf("%s (%s)\n%s", m(), opts, show()) }
 	}
-	return c36Result{Outcome: out}
+	return c36Result{Viols: viols, Outcome: out}
 }
 
 // c36TSSig narrows a timestamp mismatch: "…-next-sample-differs" when some label set is followed
 // (next sample line of the payload) by a sample whose timestamp differs from the set's own.
-func c36TSSig(c *c36Case, sets []c36Set, sig string) string {
-	if c.Fmt != c36Text && c.Fmt != c36OM {
+func c36TSSig(c *c36Case, x *c36Ctx, sig string) string {
+	if c.Fmt == c36ProtoWrap {
+		// NHCBParser around a ProtobufParser: the next sample is the next metric of the family
+		// or the first metric of the following family.
+		order := []int{0, 1}[:len(x.sets)]
+		if len(c.Perm) > 0 && c.Perm[0] == 1 && len(x.sets) == 2 {
+			order = []int{1, 0}
+		}
+		for k, si := range order {
+			next := int64(-1)
+			switch {
+			case k+1 < len(order):
+				next = x.sets[order[k+1]].TS
+			case c.Trailer == c36TrailerTyped || c.Trailer == c36TrailerBareTS:
+				next = 7000
+			case c.Trailer == c36TrailerBare:
+				next = 0
+			}
+			if next >= 0 && next != x.sets[si].TS {
+				return sig + "-next-sample-differs"
+			}
+		}
 		return sig
 	}
-	_, lines, _ := c36Lines(c.Fmt, sets)
+	if x.enc == nil {
+		return sig
+	}
+	sets, lines := x.sets, x.enc.lines
 	perm := c.Perm
 	if perm == nil {
 		for i := range lines {
 			perm = append(perm, i)
 		}
 	}
-	trailerTS := int64(-1) // -1: no following sample
+	trailerTS := int64(-1) // -1: no following sample (end of input or metadata lines first)
 	switch c.Trailer {
-	case c36TrailerTyped:
-		trailerTS = -1 // metadata lines come first: the histogram is complete before the next sample
 	case c36TrailerBareTS:
 		trailerTS = 7000
 	case c36TrailerBare:
@@ -864,10 +925,12 @@ func c36TSSig(c *c36Case, sets []c36Set, sig string) string {
 	for k, p := range perm {
 		s := lines[p].Set
 		next := trailerTS
-		if k+1 < len(perm) {
-			if lines[perm[k+1]].Set == s {
-				continue
-			}
+		switch {
+		case k+1 < len(perm) && lines[perm[k+1]].Set == s:
+			continue
+		case x.enc.created[s] != "" && !c.SkipST:
+			next = 0 // the set's "_created" sample (written without timestamp) follows
+		case k+1 < len(perm):
 			next = sets[lines[perm[k+1]].Set].TS
 		}
 		if next >= 0 && next != sets[s].TS {
@@ -973,15 +1036,6 @@ func c36ValueInner(j c36Job, f func(c *c36Case) bool) {
 		}
 		trs, exs, sts = []int{0, 1, 2, 3}, []int{0, 1, 2}, []int{0, 1}
 	}
-	nb := make([]int, len(sh))
-	tot := 1
-	for i, s := range sh {
-		nb[i] = len(c36Shapes[s].Bounds)
-		if c36Shapes[s].Inf {
-			nb[i]++
-		}
-		tot *= c36Fact(nb[i])
-	}
 	for _, tsc := range tscs {
 		for _, tr := range trs {
 			for fm := c36Text; fm <= c36ProtoWrap; fm++ {
@@ -1000,7 +1054,9 @@ func c36ValueInner(j c36Job, f func(c *c36Case) bool) {
 							}
 							natives := []int{0}
 							if isProto && !isFloat && j.Mode == 2 {
-								natives = []int{0, 1, 2, 3}[:1<<len(lists)]
+								// every set or no set also carries an exponential histogram (families
+								// mixing classic-only and native metrics are left to C35)
+								natives = []int{0, 1<<len(lists) - 1}
 							}
 							for _, nat := range natives {
 								c := o
@@ -1022,38 +1078,12 @@ func c36ValueInner(j c36Job, f func(c *c36Case) bool) {
 									}
 									continue
 								}
-								// protobuf: both metric orders; every bucket order of every set
-								// (mode 1; mode 2: ascending and descending)
+								// protobuf: both metric orders (buckets must be ascending in the protobuf format)
 								for swap := 0; swap < len(sh); swap++ {
-									if j.Mode == 1 {
-										for k := 0; k < tot; k++ {
-											cc := c
-											cc.Perm = []int{swap}
-											kk := k
-											for i := range sh {
-												fc := c36Fact(nb[i])
-												cc.Perm = append(cc.Perm, kk%fc)
-												kk /= fc
-											}
-											if !f(&cc) {
-												return
-											}
-										}
-										continue
-									}
-									for _, desc := range []bool{false, true} {
-										cc := c
-										cc.Perm = []int{swap}
-										for i := range sh {
-											k := 0
-											if desc {
-												k = c36LastPermIdx(nb[i])
-											}
-											cc.Perm = append(cc.Perm, k)
-										}
-										if !f(&cc) {
-											return
-										}
+									cc := c
+									cc.Perm = []int{swap}
+									if !f(&cc) {
+										return
 									}
 								}
 							}
@@ -1065,31 +1095,22 @@ func c36ValueInner(j c36Job, f func(c *c36Case) bool) {
 	}
 }
 
-// c36LastPermIdx: index (vx.Perms order) of the descending permutation of 0..n-1.
-func c36LastPermIdx(n int) int {
-	idx, i := 0, 0
-	vx.Perms(n, func(p []int) bool {
-		desc := true
-		for k := range p {
-			if p[k] != n-1-k {
-				desc = false
-			}
-		}
-		if desc {
-			idx = i
-			return false
-		}
-		i++
-		return true
-	})
-	return idx
-}
-
 // c36OrderJobs: the "orders" sweep — all permutations of the series lines, split by first line.
+//
+//	quick:    <= 6 lines: every timestamp combination, trailers {none, bare sample with timestamp};
+//	          7 lines: distinct timestamps only.
+//	thorough: <= 7 lines: everything; 8 lines (label sets a=x / a=y): every timestamp combination,
+//	          two trailers; 9 lines: distinct timestamps, two trailers, no skip-ST variant.
 func c36OrderJobs(r *vx.Run) []c36Job {
 	var jobs []c36Job
-	maxLines := vx.Pick(r, 8, 9)
-	trailers := vx.Pick(r, []int{c36TrailerNone, c36TrailerBareTS}, []int{0, 1, 2, 3})
+	all := func(n int) []int {
+		var out []int
+		for i := 0; i < n; i++ {
+			out = append(out, i)
+		}
+		return out
+	}
+	two := []int{c36TrailerNone, c36TrailerBareTS}
 	for ll, lists := range c36LabelLists {
 		if r.Quick() && ll == 5 {
 			continue
@@ -1100,25 +1121,28 @@ func c36OrderJobs(r *vx.Run) []c36Job {
 		}
 		for _, sh := range c36ShapeSets(len(lists)) {
 			n := c36NLines(sh)
-			if n > maxLines {
+			tscs, trailers, fewOpts := all(tsl), all(4), false
+			switch {
+			case r.Quick() && n <= 6:
+				trailers = two
+			case r.Quick() && n == 7:
+				tscs, trailers = []int{2}, two
+			case r.Quick():
 				continue
-			}
-			if r.Quick() && n == 8 && !(sh[0] == 1 && sh[1] == 1) {
-				continue
-			}
-			big := n == 9 // thorough only: one label-set list, two trailers
-			if big && ll != 3 {
+			case n <= 7:
+			case n == 8 && ll == 3:
+				trailers = two
+			case n == 9 && ll == 3:
+				tscs, trailers, fewOpts = []int{2}, two, true
+			default:
 				continue
 			}
 			nvec := len(c36Vectors(len(c36Shapes[sh[0]].Bounds)))
-			for tsc := 0; tsc < tsl; tsc++ {
+			for _, tsc := range tscs {
 				for _, tr := range trailers {
-					if big && tr != c36TrailerNone && tr != c36TrailerBareTS {
-						continue
-					}
 					for fm := c36Text; fm <= c36OM; fm++ {
 						for _, o := range c36Opts(fm) {
-							if o.TypeUnit {
+							if o.TypeUnit || (fewOpts && o.SkipST) {
 								continue
 							}
 							c := o
@@ -1143,37 +1167,59 @@ func TestVerifC36(t *testing.T) {
 	defer r.Finish()
 
 	report := func(c *c36Case, res c36Result) {
-		if res.Sig != "" {
-			r.Violation(res.Sig, res.Msg, c)
+		for _, v := range res.Viols {
+			if _, dup := c36Seen.LoadOrStore(v.Sig, true); dup {
+				r.Violation(v.Sig, "", nil) // counted by vx; only the first one is rendered
+				continue
+			}
+			r.Violation(v.Sig, v.Msg(), c)
 		}
 	}
 	if r.Replay != "" {
 		var c c36Case
 		r.LoadReplay(&c)
-		res := c36Run(r, &c)
+		res := c36Run(&c, nil)
 		report(&c, res)
-		fmt.Printf("replay outcome: %s\n%s\n", res.Sig, res.Msg)
+		for _, v := range res.Viols {
+			fmt.Printf("replay: %s\n", v.Sig)
+		}
 		return
 	}
 
-	// self-test: the oracle must reject (a) cumulative instead of de-cumulated counts, (b) a
-	// second histogram for the same label set, (c) a dropped pass-through series.
+	// self-test: the oracle must reject cumulative instead of de-cumulated counts, wrong bucket
+	// counts, a second histogram for the same label set, a dropped pass-through entry, a wrong
+	// timestamp; and accept the (correct) conversion of this simple case.
 	{
-		c := &c36Case{Fmt: c36Text, LL: 1, Sh: []int{3}, Vec: len(c36Vectors(2)) - 2, Perm: nil, Trailer: c36TrailerTyped}
-		sets := c.sets()
-		payload, _ := c36Payload(c, sets)
-		pb, _ := c36Parser(c, payload, false)
-		base, err := tpxCollect(pb, false, 1000)
-		if err != nil {
-			t.Fatalf("self-test: base parse failed: %v\n%s", err, payload)
+		// (hand-made entries: the self-test must not depend on the implementation under test)
+		c := &c36Case{Fmt: c36Text, LL: 1, Sh: []int{3}, Vec: len(c36Vectors(2)) - 2, Perm: nil, Trailer: c36TrailerBare}
+		x := c36NewCtx(c)
+		ser := func(v float64, kv ...string) tpxEntry {
+			return tpxEntry{Kind: "series", LS: labels.FromStrings(kv...), Val: tpxBits(v)}
 		}
-		pc, _ := c36Parser(c, payload, true)
-		conv, err := tpxCollect(pc, false, 1000)
-		if err != nil {
-			t.Fatalf("self-test: conv parse failed: %v", err)
+		base := []tpxEntry{
+			{Kind: "type", Name: "h", Text: "histogram"},
+			ser(1, "__name__", "h_bucket", "a", "x", "le", "-1.0"),
+			ser(3, "__name__", "h_bucket", "a", "x", "le", "0.5"),
+			ser(4, "__name__", "h_bucket", "a", "x", "le", "+Inf"),
+			ser(2.5, "__name__", "h_sum", "a", "x"),
+			ser(4, "__name__", "h_count", "a", "x"),
+			ser(5, "__name__", "u"),
 		}
-		if sig, msg := c36Compare(c, sets, base, conv, false); sig != "" {
-			t.Logf("self-test note: reference case already differs: %s %s", sig, msg)
+		conv := []tpxEntry{
+			base[0],
+			{Kind: "hist", LS: labels.FromStrings("__name__", "h", "a", "x"), H: &histogram.Histogram{
+				Schema: histogram.CustomBucketsSchema, Count: 4, Sum: 2.5, CustomValues: []float64{-1, 0.5},
+				PositiveSpans: []histogram.Span{{Offset: 0, Length: 3}}, PositiveBuckets: []int64{1, 1, -1},
+			}},
+			base[6],
+		}
+		sigOf := func(conv []tpxEntry) string {
+			v, _ := c36Compare(c, x, base, conv, true)
+			var ss []string
+			for _, y := range v {
+				ss = append(ss, y.Sig)
+			}
+			return strings.Join(ss, ",")
 		}
 		clone := func() []tpxEntry {
 			out := append([]tpxEntry{}, conv...)
@@ -1184,36 +1230,31 @@ func TestVerifC36(t *testing.T) {
 			}
 			return out
 		}
-		hi := -1
-		for i, e := range conv {
-			if c36IsNHCB(e) {
-				hi = i
-			}
-		}
-		if hi < 0 || conv[hi].H == nil {
-			t.Fatalf("self-test: no integer custom-bucket histogram in %v", tpxStrings(conv))
+		hi := 1
+		if sig := sigOf(conv); sig != "" {
+			t.Fatalf("self-test: the correct conversion is rejected (%s)", sig)
 		}
 		bad := clone()
 		bad[hi].H.PositiveBuckets = []int64{1, 2, 1} // the cumulative counts 1,3,4 (delta-encoded) instead of 1,2,1
-		if sig, _ := c36Compare(c, sets, base, bad, false); sig == "" {
+		if sig := sigOf(bad); sig == "" {
 			t.Fatalf("self-test: cumulative bucket counts not rejected")
 		}
 		bad = clone()
 		bad[hi].H.PositiveBuckets = []int64{2, -1, 0} // counts 2,1,1 instead of 1,2,1
-		if sig, _ := c36Compare(c, sets, base, bad, false); sig != "nhcb-bucket-counts-mismatch" {
+		if sig := sigOf(bad); sig != "nhcb-bucket-counts-mismatch" {
 			t.Fatalf("self-test: wrong bucket counts not rejected (got %q)", sig)
 		}
 		bad = append(clone(), conv[hi])
-		if sig, _ := c36Compare(c, sets, base, bad, false); sig != "nhcb-extra-histogram" {
+		if sig := sigOf(bad); sig != "nhcb-extra-histogram" {
 			t.Fatalf("self-test: duplicate histogram not rejected (got %q)", sig)
 		}
 		bad = clone()[1:]
-		if sig, _ := c36Compare(c, sets, base, bad, false); sig != "passthrough-differs" {
+		if sig := sigOf(bad); sig != "passthrough-differs" {
 			t.Fatalf("self-test: dropped pass-through entry not rejected (got %q)", sig)
 		}
 		bad = clone()
 		bad[hi].HasTS, bad[hi].TS = true, 7000
-		if sig, _ := c36Compare(c, sets, base, bad, false); sig != "nhcb-timestamp-mismatch" {
+		if sig := sigOf(bad); sig != "nhcb-timestamp-mismatch" {
 			t.Fatalf("self-test: wrong timestamp not rejected (got %q)", sig)
 		}
 	}
@@ -1221,33 +1262,33 @@ func TestVerifC36(t *testing.T) {
 	vjobs := c36ValueJobs(r)
 	ojobs := c36OrderJobs(r)
 	var nEval, nInter, nConvExpected atomic.Int64
-	runOne := func(c *c36Case) {
-		res := c36Run(r, c)
+	runOne := func(c *c36Case, x *c36Ctx) {
+		res := c36Run(c, x)
 		report(c, res)
 		k := nEval.Add(1)
+		r.Distinct("distinct_outcomes", res.Outcome)
 		if res.Outcome != "" {
-			r.Distinct("distinct_outcomes", res.Outcome)
-			if strings.Contains(res.Outcome, "hist ") {
-				r.Distinct("distinct_nontrivial", res.Outcome)
-				nConvExpected.Add(1)
+			r.Distinct("distinct_nontrivial", res.Outcome)
+			nConvExpected.Add(1)
+		}
+		for _, v := range res.Viols {
+			if v.Sig == "interleaved-label-sets-not-collated" {
+				nInter.Add(1)
 			}
 		}
-		if strings.HasPrefix(res.Sig, "interleaved-") {
-			nInter.Add(1)
-		}
 		r.SampleAt(k, func() any {
-			p, _ := c36Payload(c, c.sets())
+			p, _ := c36Payload(c, c36NewCtx(c))
 			s := string(p)
 			if c.Fmt >= c36Proto {
 				s = fmt.Sprintf("%x", p)
 			}
-			return map[string]any{"case": c, "payload": s, "parsed_with_conversion": strings.Split(res.Outcome, "|")}
+			return map[string]any{"case": c, "payload": s, "custom_bucket_histograms_emitted": strings.Split(res.Outcome, "|")}
 		})
 	}
 	r.ParallelN(int64(len(vjobs)), func(i int64) {
 		cnt := 0
 		c36ValueInner(vjobs[i], func(c *c36Case) bool {
-			runOne(c)
+			runOne(c, nil)
 			cnt++
 			return cnt%256 != 0 || !(r.Expired() || r.TooManyViolations())
 		})
@@ -1255,6 +1296,7 @@ func TestVerifC36(t *testing.T) {
 	valuesDone := nEval.Load()
 	r.ParallelN(int64(len(ojobs)), func(i int64) {
 		j := ojobs[i]
+		x := c36NewCtx(&j.C)
 		rest := make([]int, 0, j.Lines-1)
 		for k := 0; k < j.Lines; k++ {
 			if k != j.First {
@@ -1262,14 +1304,14 @@ func TestVerifC36(t *testing.T) {
 			}
 		}
 		cnt := 0
+		c := j.C
+		c.Perm = make([]int, j.Lines)
 		vx.Perms(j.Lines-1, func(p []int) bool {
-			c := j.C
-			c.Perm = make([]int, 0, j.Lines)
-			c.Perm = append(c.Perm, j.First)
-			for _, x := range p {
-				c.Perm = append(c.Perm, rest[x])
+			c.Perm[0] = j.First
+			for k, y := range p {
+				c.Perm[k+1] = rest[y]
 			}
-			runOne(&c)
+			runOne(&c, x)
 			cnt++
 			return cnt%256 != 0 || !(r.Expired() || r.TooManyViolations())
 		})
@@ -1279,7 +1321,9 @@ func TestVerifC36(t *testing.T) {
 	r.Count("evaluations_orders_sweep", int(nEval.Load()-valuesDone))
 	r.Count("cases_with_custom_bucket_histogram_emitted", int(nConvExpected.Load()))
 	r.Count("interleaved_order_cases_flagged", int(nInter.Load()))
-	r.Set("max_lines_all_permutations", vx.Pick(r, 8, 9))
+	r.Set("max_lines_all_permutations", vx.Pick(r, 7, 9))
+	r.Set("value_jobs", len(vjobs))
+	r.Set("order_jobs", len(ojobs))
 	r.Set("rule", "values sweep: product of 6 label-set lists x bucket shapes (0-3 finite bounds, +Inf exposed or not) x all non-decreasing cumulative vectors over {0,1,3} plus a strictly increasing and a fractional one x sums {2.5,NaN,-1} x per-set timestamp combinations x exemplar modes x start timestamps x 4 trailers x every ParserOptions combination x {text, OpenMetrics (expfmt order and reversed), protobuf and protobuf wrapped in NHCBParser (every bucket order, both metric orders, with/without an exponential histogram on each set)}; orders sweep: every permutation of the series lines of the histogram family (text, OpenMetrics). A case is non-trivial when a custom-bucket histogram is emitted; distinct_nontrivial counts distinct full parser outputs of such cases.")
 	r.Assume("expfmt (prometheus/common) and client_model encode the model families correctly; the parse WITHOUT conversion is the reference for pass-through entries (its own faithfulness is C35)")
 	r.Assume("inputs are valid classic histograms (cumulative counts non-decreasing, +Inf bucket equal to count, all lines of a label set carry the same timestamp, exemplars carry timestamps)")
